@@ -28,6 +28,10 @@ Definition q_case (has_zstd dfg bg : bool) (rd : reader) :=
    | Err => Err | Fuel => Fuel
    end).
 
+(* the harness serialiser against the Coq writers of the theorems (ext_render, snaps_render) *)
+Definition q_render_check (xs : list (Z * list Z)) (area : list Z) (snaps : list snap_spec) (sb : list Z) : bool :=
+  list_eqb (ext_render xs) area && list_eqb (snaps_render snaps) sb.
+
 (* ---------- vhdx ---------- *)
 Definition xh_view (h : x_header) :=
   (xh_signature h, xh_sequence h, xh_file_write_guid h, xh_data_write_guid h, xh_log_guid h,
@@ -42,6 +46,9 @@ Definition x_meta_view (m : x_meta) :=
    (xm_size m, xm_block_size m, xm_has_parent m, xm_sector_size m, xm_id m),
    option_map pl_view (xm_locator m), xm_bat_offset m).
 Definition x_case (rd : reader) := rmap x_meta_view (x_open utf16le_decode (fun _ => true) rd).
+
+Definition x_render_check (type_le : list Z) (kvs : list (list Z * list Z)) (bytes : list Z) : bool :=
+  list_eqb (locator_render utf16le_encode type_le kvs) bytes.
 
 (* ---------- vmdk ---------- *)
 Definition ext_view (e : extent) :=
